@@ -103,7 +103,8 @@ def run(ctx):
         for bi, si, s in mir.iter_stmts(pf):
             if s["k"] == "assign" and s["p"]["l"] == 0 and s["r"]["k"] == "agg" and s["r"].get("variant") in PASS_VARIANTS:
                 found = True
-                lits = c.must_literals(bi)
+                # helpers the filter was split into are read through (what they guarantee when they return Some/true)
+                lits = cnd.expand_literals(prog, pf, set(c.must_literals(bi)), depth=3)
                 compat = any(l[0] == "bool" and l[2] is True and df.strip(l[1])[0] == "call" and
                              df.strip(l[1])[2] in ("is_compatible", "is_message_buffer_compatible") for l in lits)
                 parsed = any(l[0] == "variant" and l[2] == frozenset(["Ok"]) and df.strip(l[1])[0] == "call" and
